@@ -77,6 +77,13 @@ def run_case(case, seed):
     d = Path(tempfile.mkdtemp(prefix="verif_cfg_"))
     try:
         (d / "test_cfg.py").write_text(TEST)
+        # a persisted external that no test references: only an approved trim may remove it
+        import hashlib
+        ext = d / ".inline-snapshot" / "external"
+        ext.mkdir(parents=True)
+        data = b"persisted but unreferenced"
+        ext_file = ext / (hashlib.sha256(data).hexdigest() + ".bin")
+        ext_file.write_bytes(data)
         pp = []
         if case["pp"]["on"]:
             pp.append("default-flags = %s" % json.dumps(case["pp"]["f"]))
@@ -143,7 +150,10 @@ def run_case(case, seed):
                            "srcs": srcs, "rc": r["rc"]})
         if srcs[4] != "7":
             mm("xfail-rewritten", {"src": srcs[4]})
-        if not exp:
+        if ext_file.exists() == bool(case.get("ext_removed", False)):
+            mm("external", {"exp_removed": case.get("ext_removed"), "still_there": ext_file.exists(),
+                            "approved_by_user": [CATS[c] for c in case["approved"]]})
+        if not exp and not case.get("ext_removed"):
             changed = {k for k in set(before) | set(after) if before.get(k) != after.get(k)
                        and not k.startswith(".inline-snapshot/external/.gitignore")}
             if changed:
